@@ -675,7 +675,23 @@ tp_ep_start(tp_ep *ep, const tp_cfg *cfg)
 		br_ssl_engine_set_suites(ep->eng, cfg->suites, cfg->nsuites);
 	}
 	if (cfg->flags_set) {
-		br_ssl_engine_set_all_flags(ep->eng, cfg->flags);
+		/* the three ways to get there: all at once; everything removed, then added; one flag at a time */
+		static unsigned tp_flag_way;
+		switch (tp_flag_way ++ % 3) {
+		case 0: br_ssl_engine_set_all_flags(ep->eng, cfg->flags); break;
+		case 1: br_ssl_engine_remove_flags(ep->eng, 0xFFFFFFFFu); br_ssl_engine_add_flags(ep->eng, cfg->flags); break;
+		default: {
+			uint32_t b;
+			for (b = 1; b != 0 && b <= 0x8000; b <<= 1) {
+				if (cfg->flags & b) br_ssl_engine_add_flags(ep->eng, b); else br_ssl_engine_remove_flags(ep->eng, b);
+			}
+			br_ssl_engine_remove_flags(ep->eng, ~(uint32_t)0xFFFF);
+			break;
+		}
+		}
+		if (br_ssl_engine_get_flags(ep->eng) != (cfg->flags & 0xFFFF) && br_ssl_engine_get_flags(ep->eng) != cfg->flags) {
+			TP_VIOL("setup:flags-not-as-set", "br_ssl_engine_get_flags does not return the flags that were set");
+		}
 	}
 	if (cfg->alpn != NULL) {
 		br_ssl_engine_set_protocol_names(ep->eng, cfg->alpn, cfg->nalpn);
